@@ -37,8 +37,9 @@ func NewDatatypeManager(ctx *context.ClientContext, sm *SyncManager) *DatatypeMa
 func (its *DatatypeManager) DeliverTransaction(wired iface.WiredDatatype) {
 	if its.ctx.Client.SyncType == model.SyncType_REALTIME {
 		go func() {
-			if !its.sema.TryAcquire(1) {
-
+			// a delivery waits for its turn: giving up while another datatype of this client is syncing
+			// would leave its operations unpushed, because nobody looks at this datatype again
+			if err := its.sema.Acquire(its.ctx.Ctx(), 1); err != nil {
 				return
 			}
 			defer func() {
@@ -48,6 +49,9 @@ func (its *DatatypeManager) DeliverTransaction(wired iface.WiredDatatype) {
 					its.DeliverTransaction(wired)
 				}
 			}()
+			if !wired.NeedPush() && wired.GetState() == model.StateOfDatatype_SUBSCRIBED {
+				return // the sync that held the semaphore has already pushed everything
+			}
 			if err := its.sync(wired); err != nil {
 				// TODO: handle in ErrorHandler
 			}
